@@ -14,6 +14,117 @@ fn xp_text(i: usize) -> String {
 fn fold(v: &[u64]) -> u64 {
     v.iter().fold(0u64, |a, b| a.wrapping_mul(31).wrapping_add(*b))
 }
+/// Merged allocator log of host and plugin (one clock), written as events of spec/Modules.tla.
+pub struct AllocTrace {
+    _lib: libloading::Library,
+    drain: unsafe extern "C" fn(*mut ledger::Ev, usize) -> usize,
+    log: vkit::NdJson,
+    live_at: std::collections::HashMap<usize, (u32, u64, usize)>,
+    gone: std::collections::HashMap<(u32, u64), u64>,
+    next_id: u64,
+    pub emitted: usize,
+    hv: Vec<ledger::Ev>,
+    pv: Vec<ledger::Ev>,
+}
+pub static ALLOC_TRACE: std::sync::Mutex<Option<AllocTrace>> = std::sync::Mutex::new(None);
+const ATCAP: usize = 1 << 17;
+impl AllocTrace {
+    /// `--alloc-trace <path>` next to `--plugin <so>`: both allocators start recording on the host's clock.
+    pub fn start_from_args(args: &[String]) {
+        let (Some(out), Some(p)) = (vkit::arg_after(args, "--alloc-trace"), vkit::arg_after(args, "--plugin")) else { return };
+        unsafe {
+            let lib = libloading::Library::new(&p).expect("plugin");
+            let drain = {
+                let d: libloading::Symbol<unsafe extern "C" fn(*mut ledger::Ev, usize) -> usize> = lib.get(b"xp_drain_events").unwrap();
+                *d
+            };
+            let zero = ledger::Ev { seq: 0, kind: 0, ptr: 0, size: 0, serial: 0 };
+            let t = AllocTrace { drain, log: vkit::NdJson::create(&out), live_at: Default::default(), gone: Default::default(), next_id: 1, emitted: 0,
+                                 hv: vec![zero; ATCAP], pv: vec![zero; ATCAP], _lib: lib };
+            ledger::events(true, 0);
+            let ev2: libloading::Symbol<unsafe extern "C" fn(bool, usize)> = t._lib.get(b"xp_events").unwrap();
+            ev2(true, ledger::clock_addr());
+            *ALLOC_TRACE.lock().unwrap() = Some(t);
+        }
+    }
+    pub fn active() -> bool {
+        ALLOC_TRACE.lock().unwrap().is_some()
+    }
+    /// a behaviour starts: what each module holds now is the reference
+    pub fn begin() {
+        if Self::active() {
+            ledger::mark(1);
+        }
+    }
+    /// a behaviour is over; `balanced` = every value it created is gone (no listed finding involved, no earlier failure)
+    pub fn end(balanced: bool) {
+        if balanced && Self::active() {
+            ledger::mark(2);
+        }
+        if let Some(t) = ALLOC_TRACE.lock().unwrap().as_mut() {
+            t.flush();
+        }
+    }
+    pub fn finish() -> usize {
+        match ALLOC_TRACE.lock().unwrap().take() {
+            Some(mut t) => {
+                t.flush();
+                t.log.flush();
+                t.emitted
+            }
+            None => 0,
+        }
+    }
+    fn flush(&mut self) {
+        let hn = ledger::drain_events(self.hv.as_mut_ptr(), ATCAP);
+        let pn = unsafe { (self.drain)(self.pv.as_mut_ptr(), ATCAP) };
+        if hn == usize::MAX || pn == usize::MAX {
+            eprintln!("TOOL-ERROR allocator event log overflowed");
+            std::process::exit(2);
+        }
+        let mut all: Vec<(u32, ledger::Ev)> = self.hv[..hn].iter().map(|e| (1u32, *e)).chain(self.pv[..pn].iter().map(|e| (2u32, *e))).collect();
+        all.sort_by_key(|(_, e)| e.seq);
+        for (m, e) in all {
+            if let Some(ev) = self.event(m, e) {
+                self.log.emit(&ev);
+                self.emitted += 1;
+            }
+        }
+    }
+    /// block identity: a number per tracked allocation; an address names the block that is live at it
+    fn event(&mut self, m: u32, e: ledger::Ev) -> Option<Value> {
+        Some(match e.kind {
+            ledger::EV_ALLOC => {
+                let id = self.next_id;
+                self.next_id += 1;
+                self.live_at.insert(e.ptr, (m, id, e.size));
+                json!({"op":"alloc","m":m,"b":id,"size":e.size})
+            }
+            ledger::EV_FREE => match self.live_at.remove(&e.ptr) {
+                Some((o, id, _)) => {
+                    self.gone.insert((o, e.serial), id);
+                    json!({"op":"free","m":m,"o":o,"b":id,"size":e.size})
+                }
+                None => json!({"op":"free","m":m,"o":m,"b":0,"size":e.size}),
+            },
+            // a free that reached an allocator which does not know the address: whose block is it?
+            ledger::EV_UNKNOWN_FREE | ledger::EV_MISMATCH => match self.live_at.get(&e.ptr) {
+                Some(&(o, id, _)) => json!({"op":"free","m":m,"o":o,"b":id,"size":e.size}),
+                None => json!({"op":"free","m":m,"o":0,"b":0,"size":e.size}),
+            },
+            ledger::EV_DOUBLE_FREE => json!({"op":"free","m":m,"o":m,"b":self.gone.get(&(m, e.serial)).copied().unwrap_or(0),"size":e.size}),
+            ledger::EV_MARK => {
+                if e.ptr == 1 { json!({"op":"base"}) } else { json!({"op":"quiescent"}) }
+            }
+            _ => return None,
+        })
+    }
+}
+
+unsafe fn xp_events_pause(lib: &libloading::Library) {
+    let f: libloading::Symbol<unsafe extern "C" fn()> = lib.get(b"xp_events_pause").unwrap();
+    f()
+}
 /// called by the plugin with an iterator and a callback it created: drain one into the other
 extern "C" fn host_user(it: CIterator<u64>, mut cb: OpaqueCallback<u64>) -> u64 {
     use cglue::callback::FeedCallback;
@@ -24,10 +135,17 @@ use vkit::{json, ledger, Value};
 
 pub fn main(args: &[String]) {
     let p = vkit::arg_after(args, "--plugin").expect("--plugin");
+    // `xmod trace <out.ndjson> --plugin ..`: the same scripts, with both allocators recording what they are asked to do on
+    // one clock; the merged log is validated against spec/Modules.tla
+    let trace_out = if args.first().map(|s| s.as_str()) == Some("trace") { Some(args[1].clone()) } else { None };
     let mut fails: Vec<Value> = vec![];
     let mut n = 0;
     unsafe {
         let lib = libloading::Library::new(&p).unwrap();
+        if let Some(out) = &trace_out {
+            let a = vec!["--alloc-trace".to_string(), out.clone(), "--plugin".to_string(), p.clone()];
+            AllocTrace::start_from_args(&a);
+        }
         let info: libloading::Symbol<unsafe extern "C" fn() -> *const std::os::raw::c_char> = lib.get(b"xp_build_info").unwrap();
         let _ = info();
         let arc_new: libloading::Symbol<unsafe extern "C" fn(usize) -> CArc<u64>> = lib.get(b"xp_arc_new").unwrap();
@@ -38,7 +156,7 @@ pub fn main(args: &[String]) {
         // every order of dropping k clones (k <= 4), mixing opaque conversion, take and transpose on the way
         for k in 1..=4usize {
             for order in 0..(1..=k).product::<usize>() {
-                let (l0, a0, h0) = (live(), anoms(), ledger::snap());
+                let (l0, a0, h0) = (live(), anoms(), ledger::snap()); ledger::mark(1);
                 let first = ledger::track(|| arc_new(k));
                 let mut handles: Vec<Option<CArc<u64>>> = vec![Some(first)];
                 for i in 1..k {
@@ -62,6 +180,7 @@ pub fn main(args: &[String]) {
                     let want = if step + 1 == k { 1 } else { 0 };
                     check!("arc value dropped with the last handle only", arc_drops(k) == want, "k={} order={} after {} drops: destructor ran {} times", k, order, step + 1, arc_drops(k));
                 }
+                ledger::mark(2);
                 let h1 = ledger::snap();
                 check!("arc: plugin memory released by the plugin", live() == l0 && anoms() == a0, "plugin live {} -> {}, anomalies {} -> {}", l0, live(), a0, anoms());
                 check!("arc: host allocator untouched", h1.live == h0.live && h1.anomalies == h0.anomalies, "host live {} -> {}, anomalies {:?}", h0.live, h1.live, ledger::anomalies_since(h0.anomalies));
@@ -78,13 +197,14 @@ pub fn main(args: &[String]) {
         let sum_iter: libloading::Symbol<unsafe extern "C" fn(CIterator<u64>) -> u64> = lib.get(b"xp_sum_iter").unwrap();
         let lend: libloading::Symbol<unsafe extern "C" fn(u64, usize, extern "C" fn(CIterator<u64>, OpaqueCallback<u64>) -> u64, &mut u64) -> u64> = lib.get(b"xp_lend").unwrap();
         macro_rules! balanced { ($what:expr, $l0:expr, $a0:expr, $h0:expr) => {{
+            ledger::mark(2);
             let h1 = ledger::snap();
             check!(concat!($what, ": the creating module's memory is released by the creating module"), live() == $l0 && anoms() == $a0 && h1.live == $h0.live && h1.anomalies == $h0.anomalies,
                    "plugin live {} -> {}, plugin anomalies {} -> {}, host live {} -> {}, host anomalies {:?}", $l0, live(), $a0, anoms(), $h0.live, h1.live, ledger::anomalies_since($h0.anomalies));
         }}; }
         for nn in [0usize, 1, 3, 8] {
             // plugin-made vector of strings: read, cloned... and destroyed here
-            let (l0, a0, h0) = (live(), anoms(), ledger::snap());
+            let (l0, a0, h0) = (live(), anoms(), ledger::snap()); ledger::mark(1);
             let v = ledger::track(|| vec_str(nn));
             let ok = v.len() == nn && v.iter().enumerate().all(|(i, s)| { let t: &str = s.as_ref(); t == xp_text(i) });
             check!("plugin-made CVec<ReprCString> read in the host", ok, "n={} len={}", nn, v.len());
@@ -104,21 +224,21 @@ pub fn main(args: &[String]) {
             check!("CVec<ReprCString> after pop, dropped by the host", anoms() == a0 && live() == l0 + popped && h1.live == h0.live && h1.anomalies == h0.anomalies,
                    "n={} remaining={} plugin live {} -> {} (popped {}), anomalies {} -> {}, host {:?}", nn, remaining, l0, live(), popped, a0, anoms(), ledger::anomalies_since(h0.anomalies));
             // host-made vector: read and destroyed by the plugin
-            let (l0, a0, h0) = (live(), anoms(), ledger::snap());
+            let (l0, a0, h0) = (live(), anoms(), ledger::snap()); ledger::mark(1);
             let hv: CVec<ReprCString> = ledger::track(|| CVec::from((0..nn).map(|i| ReprCString::from(xp_text(i))).collect::<Vec<_>>()));
             let want: u64 = (0..nn).map(|i| xp_text(i).len() as u64 * 1000 + 1).sum();
             let got = ledger::track(|| vec_str_consume(hv));
             check!("host-made CVec<ReprCString> read in the plugin", got == want, "n={} digest {} expected {}", nn, got, want);
             balanced!("CVec<ReprCString> made by the host, dropped by the plugin", l0, a0, h0);
             // boxed slice of strings made by the plugin
-            let (l0, a0, h0) = (live(), anoms(), ledger::snap());
+            let (l0, a0, h0) = (live(), anoms(), ledger::snap()); ledger::mark(1);
             let sb = ledger::track(|| slicebox(nn));
             let ok = sb.len() == nn && sb.iter().enumerate().all(|(i, s)| { let t: &str = s.as_ref(); t == xp_text(i) });
             check!("plugin-made CSliceBox<ReprCString> read in the host", ok, "n={}", nn);
             ledger::track(|| drop(sb));
             balanced!("CSliceBox<ReprCString> made by the plugin, dropped by the host", l0, a0, h0);
             // boxes, both directions
-            let (l0, a0, h0) = (live(), anoms(), ledger::snap());
+            let (l0, a0, h0) = (live(), anoms(), ledger::snap()); ledger::mark(1);
             let b = ledger::track(|| box_str(nn));
             let t: &str = (*b).as_ref();
             check!("plugin-made CBox<ReprCString> read in the host", t == xp_text(nn), "{:?}", t);
@@ -134,7 +254,7 @@ pub fn main(args: &[String]) {
         }
         for (nn, stop) in [(0u64, 0usize), (5, 0), (5, 2), (40, 0), (40, 17)] {
             // host callback, plugin iterator
-            let (l0, a0, h0) = (live(), anoms(), ledger::snap());
+            let (l0, a0, h0) = (live(), anoms(), ledger::snap()); ledger::mark(1);
             let mut got: Vec<u64> = vec![];
             let fed = {
                 let mut f = |x: u64| { got.push(x); !(stop > 0 && got.len() >= stop) };
@@ -154,6 +274,11 @@ pub fn main(args: &[String]) {
             check!("plugin iterator drained into a plugin callback by the host", r == want.len() as u64 && seen == fold(&want) + want.len() as u64 * 1_000_000,
                    "n={} stop={} fed {} digest {}", nn, stop, r, seen);
             balanced!("callbacks and iterators across modules", l0, a0, h0);
+        }
+        if trace_out.is_some() {
+            let n = AllocTrace::finish();
+            println!("{}", json!({"summary":"trace","events":n}));
+            return;
         }
     }
     vkit::summary("xmod-misc", n, n, &fails, json!({}));
